@@ -1585,6 +1585,10 @@ _vbi_cache_put_page		(vbi_cache *		ca,
 		}
 	}
 
+	/* The last page on the list may have been the one we needed. */
+	if (memory_available >= memory_needed)
+		goto replace;
+
 	if (CACHE_DEBUG) {
 		fprintf (stderr, "need %lu bytes but only %lu available ",
 			 memory_needed, memory_available);
